@@ -6,8 +6,17 @@
    Every prefix of the encoding of every conforming document is such a truncated document: [cut_doc f k]
    (Proofs/CutExists.v) computes it for the first k bytes of [enc_forest f], and [C12_every_cut_partial] states the run of
    the reader on that prefix.
-   PARTIAL: only in that the declared paths are without global placeholders (the scope of [conf], as in C01). *)
-From Ebml Require Import Base Tools Spec Writer Reader Pure Encode Proofs.Tactics Proofs.ReaderIO Proofs.Refine Proofs.PureProofs Proofs.RoundTrip Proofs.Partial Proofs.CutExists.
+   PARTIAL: the statements cover the two classes of documents of C01:
+   - first class ([conf], [conf_tdoc]; Proofs/Partial.v, Proofs/CutExists.v): declared paths without global placeholders,
+     masters of known or unknown size;
+   - second class ([kconf], [kconf_tdoc]; Proofs/RoundTripKnown.v, Proofs/PartialKnown.v): every master (complete or open at
+     the cut) has a known size, and a declared path only has to MATCH the chain of masters the element sits in, so global
+     placeholders are allowed (global elements such as Void / Crc32 at any depth, recursive masters).  Start hypothesis
+     ([tdstart], part of [kconf_tdoc]; [dstart] for a complete document): in reading order the first element declared with
+     a placeholder-free path is a root element — in particular when the document starts with a root element
+     ([tdoc_root_start], [starts_at_root_dstart]).  See the statements [C12_*_known_partial] at the end of this file.
+   Not covered: unknown-size masters together with global placeholders. *)
+From Ebml Require Import Base Tools Spec Writer Reader Pure Encode Proofs.Tactics Proofs.ReaderIO Proofs.Refine Proofs.PureProofs Proofs.RoundTrip Proofs.RoundTripKnown Proofs.Partial Proofs.CutExists Proofs.PartialKnown.
 
 (* the reader yields exactly: the items of everything complete (Starts of the open masters included; Ends of complete
    masters lazily, as always), then
@@ -138,4 +147,153 @@ Example C12_ex_cut :
   out_tdoc (cut_doc C12_doc 13) = p_run C12_cfg (firstn 13 (enc_forest C12_doc)) [RAll] /\
   out_tdoc (cut_doc C12_doc 14) = p_run C12_cfg (firstn 14 (enc_forest C12_doc)) [RAll] /\
   out_tdoc (cut_doc C12_doc 18) = p_run C12_cfg (firstn 18 (enc_forest C12_doc)) [RAll].
+Proof. vm_compute. repeat split; reflexivity. Qed.
+
+(* ------------------------------------------------------------------ second class: known sizes, global placeholders allowed *)
+(* A truncated document of the second class, [kconf_tdoc c td]:
+   - [kconf_levels]: the complete trees in front of each open master satisfy [kconf]; each open master is declared a master
+     with a path that MATCHES the chain of the masters opened before it ([path_matches], placeholders allowed), has a KNOWN
+     declared size that fits its size field and [c_max], and that size is at least the extent of what lies inside it;
+   - the complete trees at the innermost level and the incomplete tag satisfy [kconf] at the chain of all open masters;
+   - [tdstart]: the start hypothesis described in the header.
+   The outputs are the same [out_tdoc td] as for the first class. *)
+Theorem C12_truncated_run_known_partial : forall c td, strict c -> c_buffered c = [] -> c_emit_eof c = true -> kconf_tdoc c td ->
+  p_run c (enc_tdoc td) [RAll] = out_tdoc td.
+Proof. exact truncated_run_known. Qed.
+
+(* ... for every buffer capacity and chunking *)
+Theorem C12_truncated_run_known_buffered_partial : forall c td cap0 script, calm script -> strict c -> c_buffered c = [] ->
+  c_emit_eof c = true -> kconf_tdoc c td -> run_reader c cap0 script (enc_tdoc td) [RAll] = out_tdoc td.
+Proof. intros c td cap0 script Hc. rewrite buffered_refines_pure by exact Hc. apply truncated_run_known. Qed.
+
+(* the start hypothesis holds when the very first element of the truncated document is a root element *)
+Theorem C12_known_root_start : forall c td,
+  match tdoc_first_id td with Some id => get_path (c_sp c) id = [] | None => True end -> tdstart c td.
+Proof. exact tdoc_root_start. Qed.
+
+(* the local statement, at any nesting depth and reader state: the input ends inside the next tag *)
+Theorem C12_truncated_tag_known : forall c st T stk ids ext x k, strict c -> c_buffered c = [] -> kpre st T stk ids ext ->
+  (b_det st = true \/ all_ids (get_path (c_sp c) (root_id x)) = false \/ get_path (c_sp c) (root_id x) = []) ->
+  kconf c ids x -> tlen x <= ext -> (0 < k < cut_limit x)%nat -> b_bytes st = firstn k (enc_tree x) ->
+  forall n, snd (p_run_all (exhausted_count (b_off st) (T ++ stk) + S n) c st) =
+            map end_out (firstn (exhausted_count (b_off st) (T ++ stk)) (T ++ stk)) ++ [OErr (cut_error (b_off st) x k)].
+Proof. exact ktruncated_tag. Qed.
+
+(* every cut of every conforming document of the second class, at every byte position: the first k bytes ARE the truncated
+   document [cut_doc f k] ... *)
+Theorem C12_cut_doc_correct_known : forall c f k, Forall (kconf c []) f -> (k <= length (enc_forest f))%nat -> dstart c f ->
+  kconf_tdoc c (cut_doc f k) /\ enc_tdoc (cut_doc f k) = firstn k (enc_forest f).
+Proof. exact cut_doc_correct_known. Qed.
+
+(* ... so the reader run on the prefix yields exactly the outputs described above for [cut_doc f k] *)
+Theorem C12_every_cut_known_partial : forall c f k, strict c -> c_buffered c = [] -> c_emit_eof c = true ->
+  Forall (kconf c []) f -> dstart c f -> (k <= length (enc_forest f))%nat ->
+  p_run c (firstn k (enc_forest f)) [RAll] = out_tdoc (cut_doc f k).
+Proof. exact every_prefix_reads_known. Qed.
+
+(* ... for every buffer capacity and chunking *)
+Theorem C12_every_cut_known_buffered_partial : forall c f k cap0 script, calm script -> strict c -> c_buffered c = [] ->
+  c_emit_eof c = true -> Forall (kconf c []) f -> dstart c f -> (k <= length (enc_forest f))%nat ->
+  run_reader c cap0 script (firstn k (enc_forest f)) [RAll] = out_tdoc (cut_doc f k).
+Proof. intros c f k cap0 script Hc. rewrite buffered_refines_pure by exact Hc. apply every_prefix_reads_known. Qed.
+
+(* Root 129; Void 236 global at depth >= 1, declared (1-); Rec 131 a recursive master, declared Root/(-)/Rec; Leaf 16642 below Rec
+   at any depth; Top 132 a global master, declared (-) *)
+Definition C12k_sp : spec :=
+  [ {| e_id := 129; e_ty := DMaster; e_path := [] |};
+    {| e_id := 236; e_ty := DBinary; e_path := [PGlobal (Some 1) None] |};
+    {| e_id := 131; e_ty := DMaster; e_path := [PId 129; PGlobal None None] |};
+    {| e_id := 16642; e_ty := DBinary; e_path := [PId 129; PGlobal None None; PId 131] |};
+    {| e_id := 132; e_ty := DMaster; e_path := [PGlobal None None] |} ].
+Definition C12k_cfg : cfg :=
+  {| c_sp := C12k_sp; c_allow_id := false; c_allow_hier := false; c_allow_over := false; c_max := Some 4000000000; c_buffered := [];
+     c_emit_eof := true |}.
+Definition C12k_void : rtree := RLeaf 236 (VB [0]) [0] 1%nat.
+Definition C12k_void3 : rtree := RLeaf 236 (VB [1; 2; 3]) [1; 2; 3] 1%nat.
+Definition C12k_leaf : rtree := RLeaf 16642 (VB [7]) [7] 2%nat.
+(* Top { Void } Root { Void Rec { Leaf Rec { Void[1;2;3] Leaf } Void } Void }   (35 bytes) *)
+Definition C12k_doc : list rtree :=
+  [ RNode 132 (Some 1%nat) [ C12k_void ];
+    RNode 129 (Some 1%nat)
+      [ C12k_void;
+        RNode 131 (Some 1%nat) [ C12k_leaf; RNode 131 (Some 1%nat) [ C12k_void3; C12k_leaf ]; C12k_void ];
+        C12k_void ] ].
+
+Example C12_ex_known_conf : strict C12k_cfg /\ Forall (kconf C12k_cfg []) C12k_doc /\ dstart C12k_cfg C12k_doc.
+Proof.
+  assert (I1 : idok 129) by (exists 1%nat, 1; repeat split; cbn; lia).
+  assert (I3 : idok 131) by (exists 1%nat, 3; repeat split; cbn; lia).
+  assert (I4 : idok 132) by (exists 1%nat, 4; repeat split; cbn; lia).
+  assert (I5 : idok 236) by (exists 1%nat, 108; repeat split; cbn; lia).
+  assert (I7 : idok 16642) by (exists 2%nat, 258; repeat split; cbn; lia).
+  assert (V : forall ids bs, wf_bytes bs -> N.of_nat (length bs) < 126 -> path_matches [PGlobal (Some 1) None] ids = true ->
+            kconf C12k_cfg ids (RLeaf 236 (VB bs) bs 1%nat)).
+  { intros ids bs Hw Hl Hp. cbn [kconf]. split; [exact I5|]. split; [lia|]. split; [change (2 ^ (7 * N.of_nat 1) - 1) with 127; lia|].
+    split; [exact Hw|]. split; [exists DBinary; split; [reflexivity|split; [discriminate|reflexivity]]|]. split; [exact Hp|]. cbn. lia. }
+  assert (L : forall ids, path_matches [PId 129; PGlobal None None; PId 131] ids = true -> kconf C12k_cfg ids C12k_leaf).
+  { intros ids Hp. cbn [kconf C12k_leaf]. split; [exact I7|]. split; [lia|]. split; [cbn; lia|]. split; [repeat constructor; lia|].
+    split; [exists DBinary; split; [reflexivity|split; [discriminate|reflexivity]]|]. split; [exact Hp|vm_compute; discriminate]. }
+  assert (N : forall ids id sl cs, idok id -> (1 <= sl <= 8)%nat -> flen cs < 2 ^ (7 * N.of_nat sl) - 1 ->
+            get_type C12k_sp id = Some DMaster -> path_matches (get_path C12k_sp id) ids = true -> flen cs <= 4000000000 ->
+            Forall (kconf C12k_cfg (ids ++ [id])) cs -> kconf C12k_cfg ids (RNode id (Some sl) cs)).
+  { intros ids id sl cs H1 H2 H3 H4 H5 H6 H7. apply kconf_node. split; [exact H1|]. split; [exists sl; split; [reflexivity|split; assumption]|].
+    split; [exact H4|]. split; [exact H5|]. split; [exact H6|exact H7]. }
+  assert (V1 : forall ids, path_matches [PGlobal (Some 1) None] ids = true -> kconf C12k_cfg ids C12k_void).
+  { intros ids Hp. apply V; [repeat constructor; lia|vm_compute; reflexivity|exact Hp]. }
+  assert (V3 : forall ids, path_matches [PGlobal (Some 1) None] ids = true -> kconf C12k_cfg ids C12k_void3).
+  { intros ids Hp. apply V; [repeat constructor; lia|vm_compute; reflexivity|exact Hp]. }
+  split; [repeat split|]. split.
+  - constructor; [|constructor; [|constructor]].
+    + apply N; [assumption|lia|vm_compute; reflexivity|reflexivity|reflexivity|vm_compute; discriminate|].
+      constructor; [apply V1; reflexivity|constructor].
+    + apply N; [assumption|lia|vm_compute; reflexivity|reflexivity|reflexivity|vm_compute; discriminate|].
+      constructor; [apply V1; reflexivity|]. constructor; [|constructor; [apply V1; reflexivity|constructor]].
+      apply N; [assumption|lia|vm_compute; reflexivity|reflexivity|reflexivity|vm_compute; discriminate|].
+      constructor; [apply L; reflexivity|]. constructor; [|constructor; [apply V1; reflexivity|constructor]].
+      apply N; [assumption|lia|vm_compute; reflexivity|reflexivity|reflexivity|vm_compute; discriminate|].
+      constructor; [apply V3; reflexivity|constructor; [apply L; reflexivity|constructor]].
+  - cbn [dstart C12k_doc]. right. split; [reflexivity|]. left. reflexivity.
+Qed.
+
+(* hence every prefix of its encoding is a truncated document of the second class; in particular the two cuts below *)
+Example C12_ex_known_tdoc : kconf_tdoc C12k_cfg (cut_doc C12k_doc 17) /\ kconf_tdoc C12k_cfg (cut_doc C12k_doc 22).
+Proof.
+  destruct C12_ex_known_conf as [_ [Hc Hd]].
+  split; apply (cut_doc_correct_known C12k_cfg C12k_doc); try assumption; vm_compute; lia.
+Qed.
+
+(* (a) cut after 17 bytes: on a tag boundary inside two open masters (Root, and the recursive master Rec), after a global
+       master, two global elements and a Leaf: the Ends of the two open masters, then None;
+   (b) cut after 22 / 23 bytes: inside the payload of a global element (Void, 3 payload bytes of which 1 / 2 are there), three
+       masters open (Root, Rec, Rec inside Rec): UnexpectedEof at the offset of the Void, with its id, its size and the payload
+       bytes that are there; no End is emitted;
+   (c) cut after 1 byte: inside the header of the leading global master *)
+Example C12_ex_known_run :
+  enc_forest C12k_doc = [132; 131; 236; 129; 0; 129; 156; 236; 129; 0; 131; 148; 65; 2; 64; 1; 7; 131; 138; 236; 131; 1; 2; 3;
+                         65; 2; 64; 1; 7; 236; 129; 0; 236; 129; 0] /\
+  cut_doc C12k_doc 17 =
+    {| td_levels := [ {| lv_f := [RNode 132 (Some 1%nat) [C12k_void]]; lv_id := 129; lv_sl := 1; lv_size := Some 28 |};
+                      {| lv_f := [C12k_void]; lv_id := 131; lv_sl := 1; lv_size := Some 20 |} ];
+       td_f := [C12k_leaf]; td_tail := CutBoundary |} /\
+  p_run C12k_cfg (firstn 17 (enc_forest C12k_doc)) [RAll] =
+    [OItem (TStart 132) 0; OItem (TElem 236 (VB [0])) 2; OItem (TEnd 132) 0; OItem (TStart 129) 5; OItem (TElem 236 (VB [0])) 7;
+     OItem (TStart 131) 10; OItem (TElem 16642 (VB [7])) 12; OItem (TEnd 131) 10; OItem (TEnd 129) 5; ONone] /\
+  cut_doc C12k_doc 22 =
+    {| td_levels := [ {| lv_f := [RNode 132 (Some 1%nat) [C12k_void]]; lv_id := 129; lv_sl := 1; lv_size := Some 28 |};
+                      {| lv_f := [C12k_void]; lv_id := 131; lv_sl := 1; lv_size := Some 20 |};
+                      {| lv_f := [C12k_leaf]; lv_id := 131; lv_sl := 1; lv_size := Some 10 |} ];
+       td_f := []; td_tail := CutTag C12k_void3 3 |} /\
+  p_run C12k_cfg (firstn 22 (enc_forest C12k_doc)) [RAll] =
+    [OItem (TStart 132) 0; OItem (TElem 236 (VB [0])) 2; OItem (TEnd 132) 0; OItem (TStart 129) 5; OItem (TElem 236 (VB [0])) 7;
+     OItem (TStart 131) 10; OItem (TElem 16642 (VB [7])) 12; OItem (TStart 131) 17;
+     OErr (REof 19 (Some 236) (Some 3) (Some [1]))] /\
+  p_run C12k_cfg (firstn 23 (enc_forest C12k_doc)) [RAll] =
+    [OItem (TStart 132) 0; OItem (TElem 236 (VB [0])) 2; OItem (TEnd 132) 0; OItem (TStart 129) 5; OItem (TElem 236 (VB [0])) 7;
+     OItem (TStart 131) 10; OItem (TElem 16642 (VB [7])) 12; OItem (TStart 131) 17;
+     OErr (REof 19 (Some 236) (Some 3) (Some [1; 2]))] /\
+  p_run C12k_cfg (firstn 1 (enc_forest C12k_doc)) [RAll] = [OErr (REof 0 (Some 132) None None)] /\
+  out_tdoc (cut_doc C12k_doc 17) = p_run C12k_cfg (firstn 17 (enc_forest C12k_doc)) [RAll] /\
+  out_tdoc (cut_doc C12k_doc 22) = p_run C12k_cfg (firstn 22 (enc_forest C12k_doc)) [RAll] /\
+  out_tdoc (cut_doc C12k_doc 23) = p_run C12k_cfg (firstn 23 (enc_forest C12k_doc)) [RAll] /\
+  out_tdoc (cut_doc C12k_doc 1) = p_run C12k_cfg (firstn 1 (enc_forest C12k_doc)) [RAll].
 Proof. vm_compute. repeat split; reflexivity. Qed.
